@@ -32,6 +32,7 @@ type WinChan struct {
 
 type WinPhase struct {
 	Ch, Dir, Credits int
+	SleepUs          int `json:",omitempty"` // simulated time that passes before the credits are granted (lets send timeouts expire)
 }
 
 type WinPlan struct {
@@ -125,7 +126,11 @@ func (windowScn) Generate(g *simrt.Rng, tier string) any {
 	}
 	nPh := 2 + g.IntN(3*maxMsg)
 	for i := 0; i < nPh; i++ {
-		p.Phases = append(p.Phases, WinPhase{Ch: g.IntN(nCh), Dir: g.IntN(2), Credits: g.IntN(4)})
+		ph := WinPhase{Ch: g.IntN(nCh), Dir: g.IntN(2), Credits: g.IntN(4)}
+		if g.Bool(0.3) {
+			ph.SleepUs = simrt.Pick(g, 5, 100, 5000, 100000)
+		}
+		p.Phases = append(p.Phases, ph)
 	}
 	return p
 }
@@ -302,6 +307,9 @@ func (r *winRun) main() *simnet.Net {
 	}
 	// phases: grant credits, settle, evaluate
 	for _, ph := range p.Phases {
+		if ph.SleepUs > 0 {
+			hSleep(time.Duration(ph.SleepUs) * time.Microsecond)
+		}
 		r.d[ph.Ch][ph.Dir].credits += ph.Credits
 		r.settle(net)
 		r.evalSettled()
